@@ -7,6 +7,7 @@ pub mod c02;
 pub mod c04;
 pub mod c05;
 pub mod c06;
+pub mod c07;
 pub mod c09;
 pub mod c10;
 pub mod c11;
@@ -15,6 +16,7 @@ pub mod c13;
 pub mod c15;
 pub mod c16;
 pub mod c20;
+pub mod fid;
 
 pub struct Info {
     pub level: &'static str,
@@ -40,6 +42,7 @@ registry! {
     "C04" => c04,
     "C05" => c05,
     "C06" => c06,
+    "C07" => c07,
     "C09" => c09,
     "C10" => c10,
     "C11" => c11,
